@@ -165,6 +165,40 @@ theorem C05_trap_between_request_and_copy (msgs : List (List UInt8)) (n : Nat) :
   refine ⟨?_, reserved_length _ _ _⟩
   rw [read_after_request LOG_CAPACITY l n (C05_invariant msgs), C05_read_is_tail, lastN_lastN_append]
 
+theorem run_snoc (w : Nat) : ∀ (ops : List Op) (t : Thread) (op : Op),
+    (Thread.run w t (ops ++ [op])).1 = ((Thread.run w t ops).1.step w op).1 := by
+  intro ops
+  induction ops with
+  | nil => intro t op; rfl
+  | cons o rest ih => intro t op; exact ih _ op
+
+/-- **the crash point between the halves, at the level of a whole thread**: after any history of
+    protocol operations (log calls in either form, everything else in between), a plan request
+    whose copy never happens leaves the host reading the tail of everything logged in this
+    invocation followed by the `n` bytes already lying where the plan points -/
+theorem C05_trap_every_history (w : Nat) (ops : List Op) (n : Nat)
+    (hs : ∀ op ∈ fuseLogs ops, op.splitLog = false) :
+    let before := (Thread.run w {} ops).1.ctx.logs
+    Logs.read LOG_CAPACITY (Thread.run w {} (ops ++ [.logreq n])).1.ctx.logs =
+        lastN LOG_CAPACITY ((msgsSince [] (fuseLogs ops)).flatten ++ reserved LOG_CAPACITY before n) ∧
+      (reserved LOG_CAPACITY before n).length = n := by
+  intro before
+  have hb : before = (msgsSince [] (fuseLogs ops)).foldl (Logs.log LOG_CAPACITY) (Logs.init LOG_CAPACITY) := by
+    show (Thread.run w {} ops).1.ctx.logs = _
+    rw [← Thread.run_fuse]
+    exact logs_run w _ hs {} [] rfl
+  have h := C05_trap_between_request_and_copy (msgsSince [] (fuseLogs ops)) n
+  simp only [] at h
+  rw [← hb] at h
+  rw [run_snoc]
+  exact h
+
+/-- non-vacuity of the hypothesis -/
+example : (∀ op ∈ fuseLogs [.log 3 1, .root, .logreq 2, .logcopy 2 5], op.splitLog = false) := by
+  intro op h
+  simp [fuseLogs] at h
+  rcases h with h | h | h <;> subst h <;> rfl
+
 /-- the wasm-only `finalize` export (not compiled natively; regenerated from provider/src/lib.rs) hands
     the host six words: the last four are the ring's read pointers in the order `read_ptrs` returns them — the two segments `C05_read_is_tail` speaks about -/
 theorem C05_wasm_finalize_words :
